@@ -149,41 +149,47 @@ theorem C05_parent_never_stuck (n : Nat) (items : Nat → List Item)
 /-! ## file level -/
 
 /-- **C05_match_complete** — if a point `a` of primary file `i` and a point `b` of secondary
-file `j` (each inside its file's coverage) lie in `[start, end]` and are closer in time than
-`max_interval`, then `match` succeeds and pairs file `i` with file `j`; and every file pair
-occurs at most once among the flattened matches — so, points being stored in exactly one
-file each, every point pair is looked at in exactly one file pair. -/
-theorem C05_match_complete (files1 files2 : List (Int × Int)) (start end_ mi : Int)
+file `j` (each inside its file's coverage, both valid datetimes before `datetime.max`) lie in
+the period `[start, end]` — either bound may be `None` (open), and the widened period is clipped
+to the datetime range as the code does — and are closer in time than `max_interval`, then
+`match` succeeds and pairs file `i` with file `j`; and every file pair occurs at most once among
+the flattened matches — so, points being stored in exactly one file each, every point pair is
+looked at in exactly one file pair.  `mi` is the full `max_interval` in µs (days included). -/
+theorem C05_match_complete (files1 files2 : List (Int × Int)) (start end_ : Option Int) (mi : Int)
     (i j : Nat) (hi : i < files1.length) (hj : j < files2.length) (ta tb : Int)
     (ha : files1[i].1 ≤ ta ∧ ta ≤ files1[i].2) (hb : files2[j].1 ≤ tb ∧ tb ≤ files2[j].2)
-    (hia : start ≤ ta ∧ ta ≤ end_) (hib : start ≤ tb ∧ tb ≤ end_) (hdt : |ta - tb| < mi) :
+    (hra : dtMin ≤ ta ∧ ta < dtMax) (hrb : dtMin ≤ tb ∧ tb < dtMax)
+    (hia : inPeriod start end_ ta = true) (hib : inPeriod start end_ tb = true)
+    (hdt : |ta - tb| < mi) :
     ∃ ms, matchFiles files1 files2 start end_ mi = .ok ms ∧
       (i, j) ∈ flattenMatches ms ∧ (flattenMatches ms).Nodup := by
   have hdt' := abs_lt.mp hdt
-  have m1 : i ∈ findIdx (start - mi) (end_ + mi) files1 :=
-    mem_findIdx.mpr ⟨hi, by omega, by omega⟩
-  have m2 : j ∈ findIdx (start - mi) (end_ + mi) files2 :=
-    mem_findIdx.mpr ⟨hj, by omega, by omega⟩
-  have h1 : findIdx (start - mi) (end_ + mi) files1 ≠ [] := List.ne_nil_of_mem m1
-  have h2 : findIdx (start - mi) (end_ + mi) files2 ≠ [] := List.ne_nil_of_mem m2
-  refine ⟨_, matchFiles_ok h1 h2, ?_, nodup_flatten_matchFiles (matchFiles_ok h1 h2)⟩
-  rw [mem_flatten_matchFiles (matchFiles_ok h1 h2)]
+  have hmi : 0 < mi := lt_of_le_of_lt (abs_nonneg _) hdt
+  have m1 := mem_findIdx_widened hi ha hmi hra hia
+  have m2 := mem_findIdx_widened hj hb hmi hrb hib
+  have h1 := List.ne_nil_of_mem m1
+  have h2 := List.ne_nil_of_mem m2
+  have hok : matchFiles files1 files2 start end_ mi = .ok _ := matchPeriod_ok h1 h2
+  refine ⟨_, hok, ?_, nodup_flatten_matchFiles hok⟩
+  rw [mem_flatten_matchFiles hok]
   refine ⟨m1, m2, ?_⟩
   simp only [partner, List.getElem?_eq_getElem hi, List.getElem?_eq_getElem hj, Bool.and_eq_true,
     decide_eq_true_eq]
   constructor <;> omega
 
 /-- `match` raises `NoFilesError` exactly when one fileset has no file in the widened period -/
-theorem C05_match_nofiles (files1 files2 : List (Int × Int)) (start end_ mi : Int) :
+theorem C05_match_nofiles (files1 files2 : List (Int × Int)) (start end_ : Option Int) (mi : Int) :
     matchFiles files1 files2 start end_ mi = .error .noFiles ↔
-      (findIdx (start - mi) (end_ + mi) files1 = [] ∨ findIdx (start - mi) (end_ + mi) files2 = []) := by
+      (findIdx (wlo start mi) (whi end_ mi) files1 = [] ∨
+       findIdx (wlo start mi) (whi end_ mi) files2 = []) := by
   constructor
   · intro h
     by_contra hne
     simp only [not_or] at hne
-    rw [matchFiles_ok hne.1 hne.2] at h
+    have hok : matchFiles files1 files2 start end_ mi = .ok _ := matchPeriod_ok hne.1 hne.2
+    rw [hok] at h
     cases h
-  · exact matchFiles_error
+  · exact matchPeriod_error
 
 /-! ## the whole pipeline -/
 
@@ -209,37 +215,81 @@ theorem C05_pipeline_edge (b : Bundle) (oc : Nat → Nat → Outcome) (processes
   · simp [pipeline, plan]
   · simp [pipeline, plan, chunks, procCount]
 
-/-- **C05_total** — the multiset of collocations over everything the parent yields equals
-the collocations between the *complete* data of the two filesets in the period:
+/-- **C05_total_skip** — the multiset of collocations over everything the parent yields, with
+`skip_file_errors=True` and *any* set of unreadable files (`bad1`, `bad2`; one unreadable file is
+the special case of the property), equals the collocations between the complete data of the two
+filesets **minus exactly the pairs involving an unreadable file** (`readable bad pts` empties the
+unreadable files and leaves every other point in place):
 
 * files `i < n1` / `j < n2` with coverage `cov1 i` / `cov2 j` and points `pts1 i` / `pts2 j`,
-  every point inside its file's coverage (each point is stored in exactly one file: the
-  complete data is the concatenation of the files);
-* `hcoll` (property C04): the opaque per-file-pair result holds exactly the pairs of points of
-  the two files that are `near`, closer in time than `mi > 0` and inside `[start, end]`;
-* no crash (no unreadable file, or `skip_file_errors` — see `C05_skip_errors`);
+  every point inside its file's coverage and a valid datetime before `datetime.max` (each point is
+  stored in exactly one file: the complete data is the concatenation of the files);
+* `hcoll` (property C04): the opaque per-file-pair result of two readable files holds exactly the
+  pairs of points of the two files that are `near`, closer in time than `mi` and inside the
+  period `[start, end]` (either bound may be `None`);
 
-then for every process count `k ≥ 1`/`None`, every bundle mode, every interleaving `evs` of
-the queue system that ends with the parent leaving its loop, the pairs inside all yielded
-bundles are a permutation of `pointPairs` over the concatenated data.  The right-hand side does
-not mention processes, bundle mode, schedule, or how the data is split into files. -/
-theorem C05_total (near : Nat → Nat → Bool) (mi start end_ : Int)
+then for every process count `k ≥ 1`/`None`, every bundle mode, every interleaving `evs` of the
+queue system that ends with the parent leaving its loop, the pairs inside all yielded bundles are
+a permutation of `pointPairs` over the concatenated readable data.  The right-hand side does not
+mention processes, bundle mode, schedule, or how the data is split into files.
+(Safety statement: it speaks about runs that reach `done`; see `C05_parent_never_stuck` and the
+note on liveness below.) -/
+theorem C05_total_skip (near : Nat → Nat → Bool) (mi : Int) (start end_ : Option Int)
     (n1 n2 : Nat) (cov1 cov2 : Nat → Int × Int) (pts1 pts2 : Nat → List Pt)
-    (hcov1 : ∀ i < n1, ∀ a ∈ pts1 i, (cov1 i).1 ≤ a.t ∧ a.t ≤ (cov1 i).2)
-    (hcov2 : ∀ j < n2, ∀ c ∈ pts2 j, (cov2 j).1 ≤ c.t ∧ c.t ≤ (cov2 j).2)
-    (coll : Nat → Nat → Option Result)
-    (hcoll : ∀ i j, (resultPairs (coll i j)).Perm (pointPairs near mi start end_ (pts1 i) (pts2 j)))
+    (hcov1 : ∀ i < n1, ∀ a ∈ pts1 i, (cov1 i).1 ≤ a.t ∧ a.t ≤ (cov1 i).2 ∧ dtMin ≤ a.t ∧ a.t < dtMax)
+    (hcov2 : ∀ j < n2, ∀ c ∈ pts2 j, (cov2 j).1 ≤ c.t ∧ c.t ≤ (cov2 j).2 ∧ dtMin ≤ c.t ∧ c.t < dtMax)
+    (bad1 bad2 : Nat → Bool) (coll : Nat → Nat → Option Result)
+    (hcoll : ∀ i j, bad1 i = false → bad2 j = false →
+      (resultPairs (coll i j)).Perm (pointPairs near mi start end_ (pts1 i) (pts2 j)))
     (b : Bundle) (processes : Option Nat) (hp : ∀ k, processes = some k → 1 ≤ k)
     (ms : List (Nat × List Nat))
     (hm : matchFiles ((List.range n1).map cov1) ((List.range n2).map cov2) start end_ mi = .ok ms)
     (ws : List (List Item))
-    (hw : pipeline b (outcome false (fun _ => false) (fun _ => false) coll) ms processes = .ok ws)
+    (hw : pipeline b (outcome true bad1 bad2 coll) ms processes = .ok ws)
+    (evs : List Event) (s : PState)
+    (hr : run (initState ws.length (fun w => ws.getD w [])) evs = some s) (hd : s.pc = .done) :
+    (itemsPairs (s.yielded.map (·.2))).Perm
+      (pointPairs near mi start end_ ((List.range n1).flatMap (readable bad1 pts1))
+        ((List.range n2).flatMap (readable bad2 pts2))) :=
+  total_perm_skip near mi start end_ n1 n2 cov1 cov2 pts1 pts2 hcov1 hcov2 bad1 bad2 coll hcoll b
+    processes hp ms hm ws hw evs s hr hd
+
+/-- **C05_total** — no unreadable file (any `skip_file_errors`): the multiset of collocations
+over everything yielded = `pointPairs` over the complete concatenated data, for every process
+count, bundle mode, interleaving, split into files. -/
+theorem C05_total (near : Nat → Nat → Bool) (mi : Int) (start end_ : Option Int)
+    (n1 n2 : Nat) (cov1 cov2 : Nat → Int × Int) (pts1 pts2 : Nat → List Pt)
+    (hcov1 : ∀ i < n1, ∀ a ∈ pts1 i, (cov1 i).1 ≤ a.t ∧ a.t ≤ (cov1 i).2 ∧ dtMin ≤ a.t ∧ a.t < dtMax)
+    (hcov2 : ∀ j < n2, ∀ c ∈ pts2 j, (cov2 j).1 ≤ c.t ∧ c.t ≤ (cov2 j).2 ∧ dtMin ≤ c.t ∧ c.t < dtMax)
+    (coll : Nat → Nat → Option Result)
+    (hcoll : ∀ i j, (resultPairs (coll i j)).Perm (pointPairs near mi start end_ (pts1 i) (pts2 j)))
+    (skip : Bool) (b : Bundle) (processes : Option Nat) (hp : ∀ k, processes = some k → 1 ≤ k)
+    (ms : List (Nat × List Nat))
+    (hm : matchFiles ((List.range n1).map cov1) ((List.range n2).map cov2) start end_ mi = .ok ms)
+    (ws : List (List Item))
+    (hw : pipeline b (outcome skip (fun _ => false) (fun _ => false) coll) ms processes = .ok ws)
     (evs : List Event) (s : PState)
     (hr : run (initState ws.length (fun w => ws.getD w [])) evs = some s) (hd : s.pc = .done) :
     (itemsPairs (s.yielded.map (·.2))).Perm
       (pointPairs near mi start end_ ((List.range n1).flatMap pts1) ((List.range n2).flatMap pts2)) := by
-  exact total_perm near mi start end_ n1 n2 cov1 cov2 pts1 pts2 hcov1 hcov2 coll hcoll b processes hp
-    ms hm ws hw evs s hr hd
+  rw [outcome_nobad] at hw
+  have := total_perm_skip near mi start end_ n1 n2 cov1 cov2 pts1 pts2 hcov1 hcov2
+    (fun _ => false) (fun _ => false) coll (fun i j _ _ => hcoll i j) b processes hp ms hm ws hw evs s hr hd
+  simpa [readable_nobad] using this
+
+/-- **C05_readable_one** — the property's clause: with `skip_file_errors` and exactly
+one unreadable primary file `u`, a collocation `(x, y)` is yielded exactly as often as it occurs
+between the complete data with file `u` emptied: all other files keep all their points. -/
+theorem C05_readable_one (pts : Nat → List Pt) (u i : Nat) :
+    readable (fun k => k == u) pts i = if i = u then [] else pts i := by
+  simp [readable]
+
+/-! ### Liveness
+Only *safety* is proved about the queue system: every run that reaches `done` has collected
+everything (`C05_parent_collects_all`), and before `done` the parent always has an enabled step
+(`C05_parent_never_stuck`, so the bounded queue cannot deadlock it).  That `done` is *reached*
+under a fair scheduler is not proved; it is exercised by the complete random schedules the harness
+replays through `step` and by the real runs (a run that does not finish is reported as `hang`). -/
 
 /-! ## Non-vacuity and executable sanity tests of the model (tests, not theorems) -/
 
@@ -305,12 +355,18 @@ private def runNoDrain (s : PState) : List Event → Option PState
     = some (.done, 1, 1)
 
 -- match: hypotheses of C05_match_complete are satisfiable
-#guard matchFiles [(0, 10), (20, 30), (50, 60)] [(5, 6), (25, 40), (100, 200)] 0 300 0
+#guard matchFiles [(0, 10), (20, 30), (50, 60)] [(5, 6), (25, 40), (100, 200)] (some 0) (some 300) 0
     = .ok [(0, [0]), (1, [1])]
-#guard matchFiles [(0, 10)] [(12, 20)] 0 300 5 = .ok [(0, [0])]
-#guard matchFiles [(0, 10)] [(500, 600)] 0 300 5 = .error .noFiles
-example : ((3 : Int) ≤ 9 ∧ (9 : Int) ≤ 10) ∧ |(9 : Int) - 13| < 5 := by decide
+#guard matchFiles [(0, 10)] [(12, 20)] (some 0) (some 300) 5 = .ok [(0, [0])]
+#guard matchFiles [(0, 10)] [(500, 600)] (some 0) (some 300) 5 = .error .noFiles
+-- open period: clipped to datetime.min / datetime.max instead of overflowing
+#guard matchFiles [(0, 10)] [(12, 20)] none none 5 = .ok [(0, [0])]
+#guard (wlo none 5, whi none 5, wlo (some dtMin) 5, whi (some 7) 5) = (dtMin, dtMax, dtMin, 12)
+-- max_interval of 36 h (in µs) pairs 6-hourly files 30 h apart
+#guard matchFiles [(0, 21600000000)] [(108000000000, 129600000000)] none none 129600000000 = .ok [(0, [0])]
+example : ((3 : Int) ≤ 9 ∧ (9 : Int) ≤ 10) ∧ |(9 : Int) - 13| < 5 ∧ inPeriod none (some 20) 9 = true ∧
+    (dtMin ≤ 9 ∧ (9 : Int) < dtMax) := by decide
 
 assert_axioms C05_chunks_partition C05_chunks_zero C05_worker_flush C05_worker_crash
   C05_skip_errors C05_parent_collects_all C05_parent_never_stuck C05_match_complete
-  C05_match_nofiles C05_pipeline_delivers C05_pipeline_edge C05_total
+  C05_match_nofiles C05_pipeline_delivers C05_pipeline_edge C05_total C05_total_skip C05_readable_one
